@@ -123,6 +123,7 @@ func checkC10(c *Ctx) {
 
 	// ---- R6 in-place compaction
 	checkInPlaceCompaction(c, "C10.R6.no-inplace-filter", gen)
+	checkOperationCopy(c, gen)
 }
 
 func checkReadableSpec(c *Ctx, gen *packages.Package) {
@@ -416,4 +417,36 @@ func checkInPlaceCompaction(c *Ctx, rule string, gen *packages.Package) {
 		c.Ok(rule, "generator."+fn+" › builds a fresh slice", c.posOf(gen, fd.Pos()), "no p[:0] reuse of the parameter")
 	}
 	_ = n
+}
+
+// checkOperationCopy: the generator renames operations (missing / clashing ids) on copies: the
+// opRef built by gatherOperations points to a local copy of the analysed operation, so the ids
+// it assigns never reach the flattened document that gets embedded.
+func checkOperationCopy(c *Ctx, gen *packages.Package) {
+	rule := "C10.R6.no-inplace-filter"
+	fd := load.FuncDecl(gen, "gatherOperations")
+	if fd == nil {
+		c.Anchor(rule, "generator.gatherOperations", "not found")
+		return
+	}
+	info := gen.TypesInfo
+	ok, found := false, false
+	ast.Inspect(fd.Body, func(n ast.Node) bool {
+		kv, isKV := n.(*ast.KeyValueExpr)
+		if !isKV || !goan.IsIdent(kv.Key, "Op") {
+			return true
+		}
+		found = true
+		un, isUn := ast.Unparen(kv.Value).(*ast.UnaryExpr)
+		if !isUn || un.Op != token.AND {
+			return true
+		}
+		def := goan.ResolveLocal(info, fd.Body, un.X)
+		if st, isStar := ast.Unparen(def).(*ast.StarExpr); isStar && st != nil {
+			ok = true
+		}
+		return true
+	})
+	c.Check(ok && found, rule, "generator.gatherOperations › opRef.Op points to a copy of the analysed operation", c.posOf(gen, fd.Pos()), "Op: &<local := *operation>",
+		"opRef.Op aliases the operation of the analysed (flattened) document: the ids the generator assigns to unnamed or clashing operations are written into the spec that is then embedded, so the embedded flat document no longer matches the input")
 }
